@@ -957,7 +957,104 @@ class Interp:
     def loop_stack_uses(self, ivar):
         return any(L.ivar is ivar for L in self.loop_stack)
 
+    def _recurrence_rewrite(self, s, rng, env):
+        """`a[i + 1] = F(a[i], i)` inside `for i in range(...)`, with `a` read nowhere else in the body: a first-order recurrence
+        kept in an array.  -> (loop with the array accesses replaced by one carried scalar, [(array name, scalar name)]) or None"""
+        if not isinstance(s.target, ast.Name) or not rng.step.eq(ONE):
+            return None
+        iname = s.target.id
+        cands = {}
+        for st in s.body:
+            for n in ast.walk(st):
+                if isinstance(n, (ast.Assign, ast.AugAssign)):
+                    tg = n.targets if isinstance(n, ast.Assign) else [n.target]
+                    for t in tg:
+                        if isinstance(t, ast.Subscript) and isinstance(t.value, ast.Name):
+                            cands.setdefault(t.value.id, []).append((n, t))
+        out = []
+        for name, stores in cands.items():
+            arr = env.get(name)
+            if not isinstance(arr, Arr) or isinstance(arr, SymArr) or arr.ndim != 1 or arr.meta.get("param") or len(stores) != 1:
+                continue
+            n, t = stores[0]
+            if not isinstance(n, ast.Assign) or len(n.targets) != 1:
+                continue
+            ix = t.slice
+            nxt = (isinstance(ix, ast.BinOp) and isinstance(ix.op, ast.Add) and (
+                (isinstance(ix.left, ast.Name) and ix.left.id == iname and isinstance(ix.right, ast.Constant) and ix.right.value == 1) or
+                (isinstance(ix.right, ast.Name) and ix.right.id == iname and isinstance(ix.left, ast.Constant) and ix.left.value == 1)))
+            if not nxt:
+                continue
+            reads = [x for st in s.body for x in ast.walk(st) if isinstance(x, ast.Name) and x.id == name and isinstance(x.ctx, ast.Load)]
+            parents = {}
+            for st in s.body:
+                for p in ast.walk(st):
+                    for ch in ast.iter_child_nodes(p):
+                        parents[id(ch)] = p
+            ok = True
+            for r in reads:
+                p = parents.get(id(r))
+                if p is t:
+                    continue
+                if not (isinstance(p, ast.Subscript) and p.value is r and isinstance(p.slice, ast.Name) and p.slice.id == iname and isinstance(p.ctx, ast.Load)):
+                    ok = False
+            if not ok or not reads:
+                continue
+            init = self.np.load(self, arr, [rng.start], s, env)
+            if not isinstance(init, Expr):
+                continue
+            out.append((name, "_rec_" + name, init))
+        if not out:
+            return None
+        import copy
+
+        names = {a: b for a, b, _ in out}
+
+        class Rw(ast.NodeTransformer):
+            def visit_Subscript(self, node):
+                if isinstance(node.value, ast.Name) and node.value.id in names:
+                    return ast.copy_location(ast.Name(id=names[node.value.id], ctx=node.ctx), node)
+                return self.generic_visit(node)
+
+        s2 = copy.copy(s)
+        s2.body = [ast.fix_missing_locations(Rw().visit(copy.deepcopy(st))) for st in s.body]
+        return s2, out
+
     def exec_range_loop(self, s, rng, env, index_target="target", elements=(), gen=None):
+        if index_target == "target" and gen is None and not elements and not getattr(s, "_rec_done", False):
+            rw = self._recurrence_rewrite(s, rng, env)
+            if rw is not None:
+                s2, recs = rw
+                s2._rec_done = True
+                for name, sc, init in recs:
+                    env[sc] = init
+                    if (env[name].dtype or "") in self.np.NARROW_DTYPES:
+                        self.event("narrowing-cast", s, "the recurrence for %s is carried through %s storage: every step of the accumulation is rounded to single precision, not only the result" % (name, env[name].dtype))
+                self.exec_range_loop(s2, rng, env)
+                L = self.loops[-1] if self.loops and self.loops[-1].node is s2 else None
+                for name, sc, init in recs:
+                    arr = env[name]
+                    new = arr.copy()
+                    new.meta = {k: v for k, v in arr.meta.items() if k not in ("points", "partial_store", "gen")}
+                    st_at = getattr(L, "state_at", None) if L is not None and getattr(L, "linear", False) else None
+                    if st_at is not None and sc in (L.state or []):
+                        # entry k is the carried value at the head of iteration k (k = start .. stop)
+                        g = lambda k, st_at=st_at, sc=sc: (st_at(k) or {}).get(sc)
+                        probe = g(alg.fn("idx", arr.shape[0], integer=True))
+                        if isinstance(probe, Expr):
+                            new.meta["gen"] = g
+                            new.val = probe
+                        else:
+                            new.val = Unknown("%s filled by a recurrence that is not summarised" % name)
+                    elif isinstance(env.get(sc), Expr) and env[sc].eq(init):
+                        new.val = init  # never changed
+                    else:
+                        new.val = Unknown("%s filled by a recurrence that is not summarised" % name)
+                    env.pop(sc, None)
+                    for k in list(env):
+                        if env[k] is arr:
+                            env[k] = new
+                return
         if index_target == "target":
             index_target = s.target
             if not isinstance(s.target, ast.Name):
@@ -1600,6 +1697,11 @@ class Interp:
                 elif x is y or (isinstance(x, (str, bool)) and x == y):
                     dup = True
                     break
+                elif isinstance(x, Tup) and isinstance(y, Tup) and x.kind == "tuple" and y.kind == "tuple" and len(x.items) == len(y.items) and all(isinstance(i, Expr) for i in x.items + y.items):
+                    # tuples of numbers are equal when every component is
+                    if all(self.decide_pred(self.cmp_expr(a - b, "==")) for a, b in zip(x.items, y.items)):
+                        dup = True
+                        break
             if not dup:
                 out.append(x)
         return SetV(out)
@@ -1628,6 +1730,17 @@ class Interp:
             if isinstance(v, (Pred, BoolCombo, Member)):
                 return BoolCombo("not", [v])
             return not self.truth(v)
+        if isinstance(node.op, ast.Invert):
+            # ~ on booleans and boolean arrays is the logical negation
+            if isinstance(v, bool):
+                return not v
+            if isinstance(v, (Pred, BoolCombo, Member)):
+                return BoolCombo("not", [v])
+            if isinstance(v, Arr) and (v.dtype == "bool" or isinstance(v.val, (bool, Pred, BoolCombo))):
+                nv = (not v.val) if isinstance(v.val, bool) else BoolCombo("not", [v.val]) if isinstance(v.val, (Pred, BoolCombo)) else Unknown("negated mask")
+                return Arr(v.shape, nv, "bool", {k: v.meta[k] for k in ("ident",) if k in v.meta})
+            if isinstance(v, Unknown):
+                return v
         raise AnalysisError("unary operator not modelled")
 
     def ev_BinOp(self, node, env):
@@ -1955,6 +2068,12 @@ class Interp:
 
     ev_GeneratorExp = ev_ListComp
 
+    def ev_SetComp(self, node, env):
+        items = self._comp_items(node.generators, env, lambda e2: self.eval(node.elt, e2))
+        if items is None or any(isinstance(x, GenList) for x in items):
+            return Unknown("set comprehension")
+        return self.make_set(items)
+
     def ev_DictComp(self, node, env):
         items = self._comp_items(node.generators, env, lambda e2: (self.eval(node.key, e2), self.eval(node.value, e2)))
         if items is None or any(isinstance(x, GenList) for x in items):
@@ -2082,8 +2201,10 @@ class Interp:
         for a in node.args:
             if isinstance(a, ast.Starred):
                 v = self.eval(a.value, env)
-                if isinstance(v, Tup):
+                if isinstance(v, Tup) and v.kind != "dict" and not any(isinstance(i, GenList) for i in v.items):
                     args.extend(v.items)
+                elif isinstance(v, SetV) and len(v.items) <= 1:
+                    args.extend(v.items)  # (the order in which a larger set is unpacked is not a function of its contents)
                 else:
                     return Unknown("star-args of non-tuple")
             else:
